@@ -619,3 +619,137 @@ func c12RecordOnlyOnSuccess(c *Ctx) {
 		c.Unresolved("C12.R8", "recorder calls in update functions that return an error (expected at least 4)")
 	}
 }
+
+// c12SearchOnSorted (R9): a binary search runs on a slice that is still sorted.
+// RemoveClusterHosts sorts the current hosts once and then looks every address to remove up with sort.Search. That is
+// right only while the slice stays sorted between the sort and each search: deleting by closing the gap
+// (append(s[:i], s[i+1:]...)) keeps the order, moving another element into the hole or appending does not - a later
+// address is then not found and silently stays in the live host set and in the stored configuration ("removed objects
+// are gone"). Clause: for every sort.Search whose predicate reads a slice variable, a sort of that variable dominates the
+// search, and no write that can break the order (an element store, or an assignment that is not a re-slice / gap-closing
+// append of the variable itself) can reach the search without passing another sort.
+func c12SearchOnSorted(c *Ctx) {
+	n := 0
+	ord := ordCounter{}
+	isSortCall := func(in ssa.Instruction, al *ssa.Alloc) bool {
+		ci, ok := in.(ssa.CallInstruction)
+		if !ok {
+			return false
+		}
+		cal := ci.Common().StaticCallee()
+		if cal == nil || cal.Pkg == nil || cal.Pkg.Pkg.Path() != "sort" || !(cal.Name() == "Sort" || cal.Name() == "Stable" || cal.Name() == "Slice" || cal.Name() == "SliceStable") {
+			return false
+		}
+		v := stripIface(ci.Common().Args[0])
+		for i := 0; i < 3; i++ {
+			if ct, ok := v.(*ssa.ChangeType); ok {
+				v = ct.X
+			}
+		}
+		u, ok := v.(*ssa.UnOp)
+		return ok && u.X == ssa.Value(al)
+	}
+	var fromVar func(v ssa.Value, al *ssa.Alloc, d int) bool
+	fromVar = func(v ssa.Value, al *ssa.Alloc, d int) bool {
+		if d > 5 {
+			return false
+		}
+		switch x := v.(type) {
+		case *ssa.UnOp:
+			return x.X == ssa.Value(al)
+		case *ssa.Slice:
+			return fromVar(x.X, al, d+1)
+		case *ssa.ChangeType:
+			return fromVar(x.X, al, d+1)
+		}
+		return false
+	}
+	for _, pkg := range []string{"pkg/upstream/cluster", "pkg/router", "pkg/server"} {
+		for _, fn := range c.PkgFuncs(pkg) {
+			forEachInstr(fn, false, func(f *ssa.Function, in ssa.Instruction) {
+				call, ok := in.(*ssa.Call)
+				if !ok || call.Common().StaticCallee() == nil || call.Common().StaticCallee().String() != "sort.Search" {
+					return
+				}
+				mc, ok := call.Common().Args[1].(*ssa.MakeClosure)
+				if !ok {
+					return
+				}
+				// the slice variable the predicate reads: a captured Alloc of slice type
+				var al *ssa.Alloc
+				for _, b := range mc.Bindings {
+					if a, isA := b.(*ssa.Alloc); isA {
+						if _, isSl := a.Type().Underlying().(*types.Pointer).Elem().Underlying().(*types.Slice); isSl {
+							al = a
+						}
+					}
+				}
+				n++
+				key := ord.next(f, "search-on-sorted")
+				if al == nil {
+					c.Fail("C12.R9", key, call.Pos(), "the slice searched by sort.Search could not be identified (the predicate captures no slice variable of this function)")
+					return
+				}
+				sorted := false
+				forEachInstr(f, false, func(_ *ssa.Function, x ssa.Instruction) {
+					if isSortCall(x, al) && instrDominates(x, call) {
+						sorted = true
+					}
+				})
+				bad := ""
+				forEachInstr(f, false, func(_ *ssa.Function, x ssa.Instruction) {
+					st, isS := x.(*ssa.Store)
+					if !isS || bad != "" {
+						return
+					}
+					breaks := ""
+					if ia, isIA := st.Addr.(*ssa.IndexAddr); isIA && fromVar(ia.X, al, 0) {
+						breaks = "an element of the sorted slice is overwritten"
+					} else if st.Addr == ssa.Value(al) {
+						v := st.Val
+						for i := 0; i < 3; i++ {
+							if ct, isCT := v.(*ssa.ChangeType); isCT {
+								v = ct.X
+							}
+						}
+						switch y := v.(type) {
+						case *ssa.Slice:
+							if !fromVar(y, al, 0) {
+								breaks = "the variable is replaced by another slice"
+							}
+						case *ssa.Call:
+							if b, isB := y.Common().Value.(*ssa.Builtin); isB && b.Name() == "append" {
+								if !(fromVar(y.Common().Args[0], al, 0) && fromVar(y.Common().Args[1], al, 0)) {
+									breaks = "elements are appended"
+								} else if _, whole := y.Common().Args[0].(*ssa.UnOp); whole {
+									breaks = "elements are appended"
+								}
+							} else {
+								breaks = "the variable is replaced by a call result"
+							}
+						default:
+							// the initial assignment (before the sort) is harmless: only writes that can reach the search count
+							breaks = "the variable is replaced"
+						}
+					}
+					if breaks == "" {
+						return
+					}
+					if existsPath(f, st, func(y ssa.Instruction) bool { return y == ssa.Instruction(call) }, func(y ssa.Instruction) bool { return isSortCall(y, al) }) != nil {
+						bad = breaks + " at " + shortPos(c, st.Pos())
+					}
+				})
+				why := "sorted before, and only order-preserving deletions in between"
+				if !sorted {
+					why = "no sort of the slice dominates the search"
+				} else if bad != "" {
+					why = bad + " and the search can run again without a new sort"
+				}
+				c.Check("C12.R9", key, call.Pos(), sorted && bad == "", why, "sort.Search in "+f.Name()+" can run on a slice that is no longer sorted ("+why+"): a later element is not found, so an object the update was told to remove stays in the live state and in the stored configuration while the call reports success")
+			})
+		}
+	}
+	if n < 1 {
+		c.Unresolved("C12.R9", "sort.Search call sites in the update paths")
+	}
+}
